@@ -139,6 +139,8 @@ def operations(rng, reserved=None):
                                            "f()[g(a)]", "o.p[f()]", "g(a)[k + 1]", "f()[o.p]", "o.q.r[g(b)]", "f().p[g(a)]", "(a, o)[f()]", "o[f()][g(a)]",
                                            "((o.p))", "(((x)))", "((o[k]))", "((o).p)", "((f().p))",
                                            "x[(x = y, 'p')]", "o[f(o = a)]", "this[(f(), 'v')]", "x[`${(x = y, k)}`]",
+                                           # words that start a declaration or a labelled statement when they come first
+                                           "(let)[0]", "(let).p", "(let[k])", "(async).p", "(yield_)[k]", "(function () {}).p", "(class {}).q", "({}).p", "({ p: 1 })[k]",
                                            # an instrumented operation in the key of a link that is not the last one
                                            "o[a + b].p", "this.cache[k.trim()].buf", "o[`${k}`].p.q", "o[a + b][k + 1]", "o.p[x.concat(y)].q", "this[a + b].v", "o[k.trim()][i]"]), o()),
         lambda: "`%s${%s}%s`" % (rng.choice(["", "p"]), o(), rng.choice(["", "q"])),
